@@ -5,6 +5,15 @@
 //   tuner evaluate <spaces> <landscape> <steps: n {igrid value}> <igrids: k {igrid}>
 //   tuner run      <local-search|surrogate> <max_evals> <spaces> <landscape>
 //   tuner tune     <local-search|surrogate> <max_evals> <folds> <seed> <offset> <nsamples> <spaces> <gen>
+//   tuner space    <type> <n v1 … vn> <k q1 … qk>          param_space_t: constructor guards, then per query value
+//                                                          to_surrogate / from_surrogate / closest_grid_point / _value
+//   tuner sfit     <n> <d> <n*d p…> <n y…> <m x…>          quadratic_surrogate_fit_t{mse, p, y}.vgrad(x, gx)
+//   tuner squad    <m model…> <d x…>                       quadratic_surrogate_t{model}.vgrad(x, gx)
+//
+// `run surrogate` additionally hands over the final state of every L-BFGS run of the tuner (hook `solver.done`:
+// fit and minimisation of the surrogate, alternating) — the ORACLE of the model (`Tuner.Solver`) — together with the
+// number of steps evaluated when the run ended and the solver's epsilon; the result line repeats the value and the
+// gradient the implementation reported at these points (compared with the model's evaluation of the same functions).
 //
 //   igrid     = d i1 … id                            spaces = d {type(0 log10, 1 linear) n v1 … vn}
 //   landscape = lin d a1 … ad n T1 … Tn              value(g) = T[(sum a_i g_i) mod n]
@@ -22,12 +31,17 @@
 #include <cstdlib>
 #include <filesystem>
 #include <mutex>
+#include <nano/core/parallel.h>
 #include <nano/machine/params.h>
 #include <nano/machine/result.h>
 #include <nano/machine/stats.h>
 #include <nano/machine/tune.h>
 #include <nano/splitter.h>
+#include <nano/loss.h>
+#include <nano/solver.h>
 #include <nano/tuner.h>
+#include <nano/tuner/surrogate.h>
+#include <nano/verif.h>
 #include <nano/tuner/util.h>
 #include <unistd.h>
 
@@ -387,6 +401,117 @@ std::string op_evaluate(toks_t& toks, std::string& aug)
     return out.str();
 }
 
+// ---- the L-BFGS runs inside the surrogate tuner (hook `solver.done`) ---------------------------------------
+struct solve_t
+{
+    size_t nsteps    = 0; // evaluations so far when the run ended
+    bool   converged = false;
+    bool   valid     = false;
+    double fx        = 0.0;
+    fvec   x0, x, gx; // start point, final point, final gradient
+};
+
+struct solver_log_t
+{
+    std::vector<solve_t> solves;
+    const trace_t*       trace = nullptr;
+};
+
+solver_log_t*& current_log()
+{
+    static thread_local solver_log_t* log = nullptr;
+    return log;
+}
+
+// `solver.done`: iter_ok, converged, valid, fx, gradient test, fcalls, gcalls, x (size, …), gx (size, …);
+// a run starts with the state built from x0 (one function call, one gradient call) and ends with its last record
+void solver_sink(const char* tag, const double* values, const size_t count)
+{
+    auto* const log = current_log();
+    if (log == nullptr || std::string(tag) != "solver.done" || count < 9)
+    {
+        return;
+    }
+    const auto first = values[5] == 1.0 && values[6] == 1.0;
+    if (first || log->solves.empty())
+    {
+        log->solves.emplace_back();
+    }
+    auto& s     = log->solves.back();
+    s.nsteps    = 0;
+    for (const auto& b : log->trace->batches)
+    {
+        s.nsteps += b.size();
+    }
+    s.converged = values[1] != 0.0;
+    s.valid     = values[2] != 0.0;
+    s.fx        = values[3];
+    const auto nx = static_cast<size_t>(values[7]);
+    s.x.assign(values + 8, values + 8 + nx);
+    const auto ng = static_cast<size_t>(values[8 + nx]);
+    s.gx.assign(values + 9 + nx, values + 9 + nx + ng);
+    if (first)
+    {
+        s.x0 = s.x;
+    }
+}
+
+struct solver_guard_t
+{
+    explicit solver_guard_t(solver_log_t& log)
+    {
+        current_log()             = &log;
+        nano::verif::trace_sink() = &solver_sink;
+    }
+    ~solver_guard_t()
+    {
+        nano::verif::trace_sink() = nullptr;
+        current_log()             = nullptr;
+    }
+    solver_guard_t(const solver_guard_t&)            = delete;
+    solver_guard_t& operator=(const solver_guard_t&) = delete;
+};
+
+std::string solves_aug(const solver_log_t& log)
+{
+    const auto solver = solver_t::all().get("lbfgs");
+    out_t      out;
+    out << "|" << solver->parameter("solver::epsilon").value<scalar_t>() << static_cast<long long>(log.solves.size());
+    for (const auto& s : log.solves)
+    {
+        out << static_cast<long long>(s.nsteps) << (s.converged ? 1 : 0) << (s.valid ? 1 : 0) << s.fx;
+        out << static_cast<long long>(s.x0.size());
+        for (const auto v : s.x0)
+        {
+            out << v;
+        }
+        out << static_cast<long long>(s.x.size());
+        for (const auto v : s.x)
+        {
+            out << v;
+        }
+        out << static_cast<long long>(s.gx.size());
+        for (const auto v : s.gx)
+        {
+            out << v;
+        }
+    }
+    return out.str();
+}
+
+void print_solves(out_t& out, const solver_log_t& log)
+{
+    out << "solves" << static_cast<long long>(log.solves.size());
+    for (const auto& s : log.solves)
+    {
+        out << s.fx << static_cast<long long>(s.gx.size());
+        for (const auto v : s.gx)
+        {
+            out << v;
+        }
+    }
+}
+
 rtuner_t make_tuner(const std::string& id, const int64_t max_evals)
 {
     auto tuner = tuner_t::all().get(id);
@@ -407,11 +532,14 @@ std::string op_run(toks_t& toks, std::string& aug)
     const auto land      = landscape_t::read(toks);
     const auto tuner     = make_tuner(id, max_evals);
 
-    trace_t    trace;
+    trace_t      trace;
+    solver_log_t log;
+    log.trace           = &trace;
     const auto callback = make_callback(s, land, trace);
     out_t      out;
     try
     {
+        const auto guard = solver_guard_t{log};
         const auto steps = tuner->optimize(s.spaces, callback, make_null_logger());
         out << "ok";
         print_batches(out, trace);
@@ -425,7 +553,122 @@ std::string op_run(toks_t& toks, std::string& aug)
         print_batches(out, trace);
         aug += " " + trace_aug(trace, nullptr);
     }
+    print_solves(out, log);
+    aug += " " + solves_aug(log);
     return out.str();
+}
+
+// ---- param_space_t -------------------------------------------------------------------------------------
+std::string op_space(toks_t& toks)
+{
+    const auto type    = toks.i64();
+    const auto vals    = toks.fs();
+    const auto queries = toks.fs();
+    tensor1d_t grid(static_cast<tensor_size_t>(vals.size()));
+    for (size_t k = 0; k < vals.size(); ++k)
+    {
+        grid(static_cast<tensor_size_t>(k)) = vals[k];
+    }
+    out_t out;
+    try
+    {
+        const auto space =
+            param_space_t{"p", type == 0 ? param_space_t::type::log10 : param_space_t::type::linear, grid};
+        out << "ok" << static_cast<long long>(queries.size());
+        for (const auto q : queries)
+        {
+            try
+            {
+                out << space.to_surrogate(q);
+            }
+            catch (const std::runtime_error&)
+            {
+                out << "x";
+            }
+            out << space.from_surrogate(q) << space.closest_grid_point_from_surrogate(q)
+                << space.closest_grid_value_from_surrogate(q);
+        }
+    }
+    catch (const std::runtime_error&)
+    {
+        return "throw critical";
+    }
+    return out.str();
+}
+
+template <class tfunction>
+std::string print_vgrad(const tfunction& function, const fvec& xs)
+{
+    vector_t x(static_cast<tensor_size_t>(xs.size()));
+    for (size_t i = 0; i < xs.size(); ++i)
+    {
+        x(static_cast<tensor_size_t>(i)) = xs[i];
+    }
+    vector_t   gx(x.size());
+    const auto fx = function.vgrad(x, gx);
+    const auto f0 = function.vgrad(x);
+    out_t      out;
+    out << "ok" << fx << f0 << gx.size();
+    for (tensor_size_t i = 0; i < gx.size(); ++i)
+    {
+        out << gx(i);
+    }
+    return out.str();
+}
+
+// ---- quadratic_surrogate_fit_t -------------------------------------------------------------------------
+std::string op_sfit(toks_t& toks)
+{
+    const auto n  = toks.i64();
+    const auto d  = toks.i64();
+    const auto ps = toks.fs();
+    const auto ys = toks.fs();
+    const auto xs = toks.fs();
+    if (n < 1 || d < 1 || d > 6 || n > 4096 || static_cast<int64_t>(ps.size()) != n * d ||
+        static_cast<int64_t>(ys.size()) != n || static_cast<int64_t>(xs.size()) != (d + 1) * (d + 2) / 2)
+    {
+        throw bad_op("sfit sizes");
+    }
+    tensor2d_t p(n, d);
+    tensor1d_t y(n);
+    for (int64_t i = 0; i < n * d; ++i)
+    {
+        p(i) = ps[static_cast<size_t>(i)];
+    }
+    for (int64_t i = 0; i < n; ++i)
+    {
+        y(i) = ys[static_cast<size_t>(i)];
+    }
+    const auto loss = loss_t::all().get("mse");
+    const auto fit  = quadratic_surrogate_fit_t{*loss, p, y};
+    if (fit.size() != static_cast<tensor_size_t>(xs.size()))
+    {
+        return "size-mismatch";
+    }
+    return print_vgrad(fit, xs);
+}
+
+// ---- quadratic_surrogate_t -----------------------------------------------------------------------------
+std::string op_squad(toks_t& toks)
+{
+    const auto ms = toks.fs();
+    const auto xs = toks.fs();
+    const auto d  = static_cast<int64_t>(xs.size());
+    if (d < 1 || d > 8 || static_cast<int64_t>(ms.size()) != (d + 1) * (d + 2) / 2)
+    {
+        throw bad_op("squad sizes"); // the constructor only asserts
+    }
+    vector_t model(static_cast<tensor_size_t>(ms.size()));
+    for (size_t i = 0; i < ms.size(); ++i)
+    {
+        model(static_cast<tensor_size_t>(i)) = ms[i];
+    }
+    const auto quad = quadratic_surrogate_t{model};
+    if (quad.size() != static_cast<tensor_size_t>(d))
+    {
+        return "size-mismatch " + std::to_string(quad.size());
+    }
+    return print_vgrad(quad, xs);
 }
 
 // ---- ml::tune ------------------------------------------------------------------------------------------
@@ -504,6 +747,35 @@ ml::stats_t direct_stats(const tensor2d_t& values, const tensor_size_t kind)
     ml::store_stats(copy.tensor(kind), buffer.tensor());
     return ml::load_stats(buffer.tensor());
 }
+
+// the batches of `ml::tune`: every `tuner_callback` runs its (trial, fold) tasks through one `pool_t::map` of the calling
+// thread (pool hook H1, event `map_enter`: number of elements = folds * trials of the batch)
+std::mutex             g_maps_mutex;
+std::vector<long long> g_maps;
+
+void pool_observer(const int event, const void*, const long long a, const long long)
+{
+    if (event == static_cast<int>(nano::verif::pool_event::map_enter))
+    {
+        const std::scoped_lock lock(g_maps_mutex);
+        g_maps.push_back(a);
+    }
+}
+
+struct pool_guard_t
+{
+    pool_guard_t()
+    {
+        {
+            const std::scoped_lock lock(g_maps_mutex);
+            g_maps.clear();
+        }
+        nano::verif::pool_hook().store(&pool_observer, std::memory_order_release);
+    }
+    ~pool_guard_t() { nano::verif::pool_hook().store(nullptr, std::memory_order_release); }
+    pool_guard_t(const pool_guard_t&)            = delete;
+    pool_guard_t& operator=(const pool_guard_t&) = delete;
+};
 
 std::string op_tune(toks_t& toks, std::string& aug)
 {
@@ -623,7 +895,8 @@ std::string op_tune(toks_t& toks, std::string& aug)
     auto  result = ml::result_t{};
     try
     {
-        result = ml::tune("verif", samples, params, s.spaces, callback);
+        const auto guard = pool_guard_t{};
+        result           = ml::tune("verif", samples, params, s.spaces, callback);
     }
     catch (const std::runtime_error&)
     {
@@ -685,6 +958,18 @@ std::string op_tune(toks_t& toks, std::string& aug)
     {
         order << c.gi << c.fold << c.closest;
     }
+    // the number of trials of every batch
+    {
+        const std::scoped_lock lock(g_maps_mutex);
+        out << "batches" << static_cast<long long>(g_maps.size());
+        order << "|" << static_cast<long long>(g_maps.size());
+        for (const auto elements : g_maps)
+        {
+            const auto k = elements / std::max<long long>(1, static_cast<long long>(splits.size()));
+            out << k;
+            order << k;
+        }
+    }
     aug += " " + order.str();
     return out.str();
 }
@@ -716,6 +1001,18 @@ std::string vh::execute(toks_t& toks, std::string& aug)
     else if (op == "tune")
     {
         res = op_tune(toks, aug);
+    }
+    else if (op == "space")
+    {
+        res = op_space(toks);
+    }
+    else if (op == "sfit")
+    {
+        res = op_sfit(toks);
+    }
+    else if (op == "squad")
+    {
+        res = op_squad(toks);
     }
     else
     {
